@@ -292,7 +292,13 @@ class StreamModel:
         else:
             want = length
         avail = max(0, len(image) - off) if off >= 0 else 0
-        n = max(0, min(want, length, avail))
+        if length < 0:
+            # data[:length] with a negative length keeps all but the last
+            # |length| bytes of what the chunk delivered (Python slicing):
+            # the retention follows the chunk, not the region
+            n = max(0, avail + length) if level not in (NONE,) else 0
+        else:
+            n = max(0, min(want, length, avail))
         cur = region.fields.get('data')
         if isinstance(cur, T) and cur.op == 'bytes' and \
                 isinstance(cur.args[2], K) and cur.args[2].v >= n:
